@@ -44,9 +44,10 @@ CLAIMS['C10'] = {
     'text': 'O10.1: the per-octet loop body, the initial value and the final mask are cut out of the current crc24 source, translated to 32-bit bit-vector terms with no-overflow side obligations, '
             'and shown equal to an independently formulated RFC 4880 6.1 LFSR step for every 24-bit state and octet (unsat); with the base case this gives the CRC for payloads of every length by induction. '
             'O10.3: the slice bounds and range step of the wrap expression in __str__ are translated and shown to tile a payload of any length into lines of 1..76 characters. '
-            'O10.2 (three-octet CRC line over all 2^24 values) and O10.4 (label emitted per object kind; every foreign label rejected by parse) are decided on the real code with CrossHair.',
-    'note': 'NOT decided here (regular expressions on symbolic text are outside this tool, probe P14): armored text -> object round trip, CRLF / surrounding text, armor header lines, the CRC-mismatch warning; base64 is C code. '
-            'The claim is therefore the checksum, the line geometry and the label discipline, not the whole envelope.'}
+            'O10.2 (three-octet CRC line over all 2^24 values) and O10.4 (label emitted per object kind; every foreign label rejected by parse) are decided on the real code with CrossHair. '
+            'O10.5 runs the real armor regular expression and base64 on concrete payloads whose length, input type, line ending, surrounding text and corruption position are chosen by symbolic indices (780 combinations, exhausted).',
+    'note': 'NOT decided on symbolic text (regular expressions on symbolic text are outside this tool, probe P14): armored text -> object round trip, CRLF / surrounding text, armor header lines, the CRC-mismatch warning are covered by O10.5 on concrete payloads only (solver-enumerated choices, native regex); base64 is C code. '
+            'The solver-decided claim is the checksum, the line geometry and the label discipline.'}
 CLAIMS['C19'] = {
     'technique': 'bounded symbolic execution of the real PGPKeyring index code over symbolic load/unload histories and creation orders (CrossHair+z3)',
     'text': 'The real PGPKeyring (alias maps, re-sort on unload, lookup, membership, fingerprints, len) is executed on histories whose operations and key creation times are symbolic: '
@@ -91,9 +92,10 @@ CLAIMS['C20'] = {
 CLAIMS['C11'] = {
     'technique': 'bounded symbolic execution of the text-signature hashing and cleartext signing code against an RFC 4880 7.1 reference (CrossHair+z3)',
     'text': 'Decided: the octets hashed for a text (0x01) signature equal the RFC 4880 7.1 canonical form for every text of 0..4 octets over the full byte alphabet (LF, CRLF, lone CR, non-ASCII) outside the region of one recorded finding; '
-            'signing a cleartext message produces a 0x01 signature over exactly the message text, and the Hash: header lists exactly the hash algorithms of the signatures carried (1..2 signers).',
-    'note': 'NOT decided (regular expressions on symbolic text are outside this tool, probe P14): dash-escaping and its removal, and the cleartext branch of the armor regular expression - i.e. the written-and-read-back round trip of the text. '
-            'The claim is therefore only the signed-octets half of the property. Open known finding KF-C11-trailing-blanks (trailing SP/HT are hashed).'}
+            'signing a cleartext message produces a 0x01 signature over exactly the message text, and the Hash: header lists exactly the hash algorithms of the signatures carried (1..2 signers). '
+            'O11.3: written-out-and-read-back round trip (dash escaping applied and removed once, same text, signature verifies) for every text of 0..3 (quick) / 4 (thorough) characters over a 7-letter adversarial alphabet, each path a concrete text.',
+    'note': 'Regular expressions on SYMBOLIC text are outside this tool (probe P14): dash-escaping, its removal and the cleartext branch of the armor regular expression are exercised only on the concrete texts O11.3 enumerates (alphabet a, -, space, LF, CR, TAB, F). '
+            'Open known finding KF-C11-trailing-blanks (trailing SP/HT are hashed); its region is excluded from O11.1/O11.3 and witnessed by O11.1k.'}
 CLAIMS['C08'] = {
     'technique': 'bounded symbolic execution of the real Packet() dispatch and every packet class codec on symbolic foreign packets, fixed-point contract checked per path (CrossHair+z3)',
     'text': 'For each packet class (user id, literal, marker, trust, MDC, encrypted data tag 9 and 18, symmetric and public-key session keys, one-pass, signature, RSA / DSA / ElGamal / ECDSA / EdDSA / ECDH public keys and subkeys, '
@@ -105,13 +107,14 @@ CLAIMS['C03'] = {
     'technique': 'bounded symbolic execution of the real encrypt/decrypt framing code with ideal-functionality stand-ins for every primitive; what is handed to the primitives is compared with RFC 4880 / RFC 6637 layouts (CrossHair+z3)',
     'text': 'With the cipher, SHA-1, S2K, the public-key operation and the KDF replaced by recording stand-ins, the real code is shown to hand the public-key operation  cipher id || key || checksum  (9 ciphers, symbolic key octets), '
             'to build the passphrase session-key packet and the integrity-protected data exactly as RFC 4880 5.3 / 5.13 say (fresh salt / prefix from the entropy feed, symbolic data), to derive the RFC 6637 section 8 parameter block for ECDH, '
-            'and to return the same literal body, file name, format and signatures after encrypt -> export -> import -> decrypt for passphrase and public-key recipients. Path trees exhausted within bounds.',
-    'note': 'The claim is about framing only: the real ciphers, CFB, RSA, ECDH, AES-KW, PKCS#5 padding and every compressor are outside (C code). Bodies of 0..3 symbolic octets.'}
+            'and to return the same literal body, file name, format and signatures after encrypt -> export -> import -> decrypt for passphrase and public-key recipients, also when one message has both kinds of recipient (O3.6). Path trees exhausted within bounds.',
+    'note': 'The claim is about framing only: the real ciphers, CFB, RSA, ECDH, AES-KW, PKCS#5 padding and every compressor are outside (C code). Bodies of 0..3 symbolic octets. One genuine defect repaired (private-key decryption of a message that also has a passphrase recipient).'}
 CLAIMS['C06'] = {
     'technique': 'bounded symbolic execution of protect / unlock / key-blob encryption with an ideal cipher, collision-free hash stand-in and symbolic entropy (CrossHair+z3)',
     'text': 'O6.1: what protect() hands the cipher is secret-MPIs || SHA-1(secret-MPIs) under the derived key with fresh IV and salt, S2K iterated+salted usage 254, all secret fields zero afterwards (RSA/DSA/EdDSA, symbolic secret octets and passphrase). '
             'O6.3: the unlock check accepts exactly the RFC predicate on an arbitrary symbolic decrypted string (usage 254 and 255), else raises and leaves the fields zero. O6.2: after protect, after a normal and after a raising unlock scope, and after a wrong passphrase, primary and subkey are locked and hold zeros. '
-            'O6.4: the export depends on the secrets only through the cipher. O6.5: foreign S2K forms incl. GNU dummy load as locked and refuse private use.',
+            'O6.2b: an unlock that fails part-way leaves everything locked. O6.4: the export depends on the secrets only through the cipher. O6.5: foreign S2K forms incl. GNU dummy load as locked and refuse private use. '
+            'O6.6: the key-encryption key arithmetic is RFC 4880 3.7.1 for every passphrase length and coded count (Engine A on the real derive_key source, shared with C12).',
     'note': 'Trusted: stand-ins of harness/encfix.py. Not covered: real S2K+CFB interoperability (C12 covers derivation), memory residue, private operations after unlock (cryptography library).'}
 CLAIMS['C07'] = {
     'technique': 'bounded symbolic execution: the derived public packet as a function of public fields only (symbolic secret octets), public-twin structure, refusal matrix (CrossHair+z3)',
@@ -125,12 +128,12 @@ CLAIMS['C13'] = {
     'note': 'NOT decided: that each ECDH encryption makes a new ephemeral key (generation is a C call inside the stubbed public-key operation); quality of the OS source; randomness during key generation.'}
 CLAIMS['C14'] = {
     'technique': 'bounded symbolic exploration of packet-sequence shapes through the real key parser / exporter against a reference grouping function (CrossHair+z3 forking on symbolic menu indices)',
-    'text': 'A transferable key is assembled from a 14-element packet menu (user ids, attribute, subkeys, trust packet, seven signatures with exportable absent/1/0 and equal/differing times, a second primary) by symbolic indices; after the real from_blob every signature must sit on the component that precedes it, '
+    'text': 'A transferable key is assembled from a 17-element packet menu (user ids incl. a non-UTF-8 one, attribute, subkeys, trust packet, nine signatures with exportable absent/1/0, equal/differing times, a sensitive designated revoker and one by an unknown algorithm, a second primary) by symbolic indices; after the real from_blob every signature must sit on the component that precedes it, '
             'trust packets be ignored and the second primary be split off; the export must omit exactly the non-exportable signatures, re-import to the same structure, be stable, and equal the export of a copy. Sequences of 1..3 (quick) / 4 (thorough) packets, exhaustively per partition.',
-    'note': 'Packet contents are concrete: this is solver-driven exploration of shapes, and the evidence says so. "Still verifying" is C01/C15. One genuine defect repaired (stable ordering of equal-time signatures).'}
+    'note': 'Packet contents are concrete: this is solver-driven exploration of shapes, and the evidence says so. "Still verifying" is C01/C15. Three genuine defects repaired (stable ordering of equal-time signatures; copies of non-UTF-8 user ids; signatures by an unknown algorithm lost their integers on import).'}
 CLAIMS['C15'] = {
     'technique': 'bounded symbolic exploration of key-management histories on the real PGPKey API with a remembering signature oracle (CrossHair+z3 forking on symbolic operation indices)',
-    'text': 'A fresh key is taken through 1..2 (quick) / 3 (thorough) steps chosen by symbolic indices from 10 operations (add identity / image / signing subkey / encryption subkey, re-certify with new preferences, third-party certify, revoke identity / subkey / key, remove identity or add revoker, export+import), optionally in the same second; '
+    'text': 'A fresh key is taken through 1..2 (quick) / 3 (thorough) steps chosen by symbolic indices from 11 operations (add identity / image / signing subkey / encryption subkey, re-certify with new preferences, third-party certify, revoke identity / subkey / key, remove identity or add revoker, export+import, take and keep the public twin), optionally in the same second; '
             'afterwards, on the private key, its public twin, a re-imported export and a copy, every self-signature, binding and revocation must verify under the public half (the octets hashed at verification equal those hashed at signing), and identities, subkeys, revocations, effective flags and primary mark must be those of a reference model.',
     'note': 'Contents concrete, histories short; protect/unlock are in C06. Exploration of operation sequences, not of data.'}
 CLAIMS['C16'] = {
@@ -141,6 +144,7 @@ CLAIMS['C16'] = {
 CLAIMS['C18'] = {
     'technique': 'bounded symbolic execution of the fingerprint computation with SHA-1 replaced by a recorder: the octets fed to the hash are compared with 99 || len2 || exported public body (CrossHair+z3)',
     'text': 'For RSA (leading-zero integers included), DSA, ElGamal, EdDSA, ECDSA and ECDH keys, given as foreign public packets and as secret packets, the octets the fingerprint computation feeds to SHA-1 are shown equal to 0x99, the two-octet length and the exported public-key packet body, '
-            'identical for the secret packet and the public packet derived from it; Fingerprint key id / short id / space and case normalisation are decided on spaced forms with symbolic space positions.',
-    'note': 'NOT decided: the creation-time clause (local-time rendering: calendar.timegm(timetuple()) is C code); SHA-1 itself; ids written into recipient fields.'}
+            'identical for the secret packet (unprotected, or protected with every S2K form: O18.3), the public packet derived from it, copies and re-imported exports; Fingerprint key id / short id / space and case normalisation are decided on spaced forms with symbolic space positions; '
+            'O18.4: with the digest value chosen by symbolic index from 7 adversarial 160-bit values, the issuer, issuer-fingerprint, one-pass and recipient key-id fields PGPy writes are that value / its low 64 bits octet for octet (recipient: the encryption subkey).',
+    'note': 'The creation-time clause is decided only on 4 zones x 6 boundary instants chosen by symbolic index (O18.1-tz; the time codec is C code, symbolic datetimes do not terminate); SHA-1 itself is not studied. One genuine defect repaired (zone-aware creation times written as wall-clock fields).'}
 NOT_APPLICABLE = {p: NB for p in ['C%02d' % i for i in range(1, 21)] if p not in CLAIMS}
